@@ -640,3 +640,25 @@ def concrete_value(fx, assigns, env, consts=None, default=0):
         if all(bool(concrete_expr(g, env, consts)) == pol for g, pol in a.guards):
             val = concrete_expr(a.value, env, consts)
     return val
+
+
+def signal_values(decl_call, env):
+    """Number of values an unsigned `Signal(...)` declaration can hold (2**nbits), its arguments evaluated by the checker's own
+    interpreter under the Python-level valuation `env`; None when the declaration is not understood.  Migen: Signal(max=M) is
+    bits_for(M - 1) wide (max defaults to 2), Signal(n) / Signal(bits_sign=n) is n wide."""
+    from . import pyconst
+    if not (isinstance(decl_call, ast.Call) and norm(decl_call.func) == "Signal"):
+        return None
+    it = pyconst.Interp(dict(env))
+    kw = {k.arg: k.value for k in decl_call.keywords if k.arg}
+    bits = decl_call.args[0] if decl_call.args else kw.get("bits_sign")
+    if bits is not None:
+        v = it.ev(bits)
+        if isinstance(v, tuple) and v and isinstance(v[0], int):
+            v = v[0]
+        return 2 ** v if isinstance(v, int) and not isinstance(v, bool) and 0 < v <= 64 else None
+    mx = it.ev(kw["max"]) if "max" in kw else 2
+    mn = it.ev(kw["min"]) if "min" in kw else 0
+    if not isinstance(mx, int) or not isinstance(mn, int) or mn != 0 or mx < 1:
+        return None
+    return 2 ** max(pyconst._bits_for(mx - 1), 1)
